@@ -582,10 +582,10 @@ def cases_roundtrip(ctx):
     corpora = [[]] + [[x] for x in lists] + [[x, y] for x in lists for y in lists]
     if not quick:
         lists3 = _tok_lists(["a", "b", "sil"], 3)
-        corpora += [[x, y, z] for x in lists3[::3] for y in lists3[1::5] for z in lists[::2]]
+        corpora += [[x, y, z] for x in lists3[::3] for y in lists3[1::5] for z in lists[::4]]
     for (p, s) in _affixes():
         for c in corpora:
-            for size in ("full", "skip", "feat"):
+            for size in ((("full", "skip", "feat")[(k // 4) % 3],) if quick else ("full", "skip", "feat")):
                 k += 1
                 sw = k % 4
                 yield {"kind": "trn", "prefix": p, "suffix": s, "utts": _name_utts(c, k), "size": size, "swap_in": bool(sw & 1), "swap_out": bool(sw & 2)}
@@ -785,24 +785,24 @@ def _er_ok(case):
 
 def cases_error_rate(ctx):
     pool = [([0], [0]), ([0, 1], [1]), ([0, 1, 2], [0, 2, 1]), ([1, 2, 0, 3], [1, 0, 3, 3, 2]), ([2, 0], []), ([3, 1, 1], [2, 3, 1, 1, 2]), ([0, 2, 2, 1], [0, 1])]
-    corpora = [[x] for x in pool[:4]] + [[pool[1], pool[2]], [pool[4], pool[3]], [pool[2], pool[5], pool[0]], [pool[6], pool[4], pool[3]], [pool[5], pool[6], pool[1], pool[2]]]
+    corpora = [[x] for x in pool[:3]] + [[pool[1], pool[2]], [pool[4], pool[3]], [pool[6], pool[4], pool[3]], [pool[5], pool[6], pool[1], pool[2]]]
     if not ctx.quick:
-        corpora += [list(c) for c in itertools.permutations(pool, 3)][::5] + [pool[:5], pool[2:], pool + pool[::-1][:2]]
+        corpora += [list(c) for c in itertools.permutations(pool, 3)][::10] + [pool[:5], pool[2:], pool + pool[::-1][:2]]
     affixes = [("", ".pt"), ("p_", ".pt"), ("a", "a"), ("x.y-", "")] if ctx.quick else _affixes()
+    combos = [(m, mode) for m in (False, True) for mode in ("total", "per_utt", "dist", "per_utt_dist")]
     k = 0
-    for (p, s) in affixes:
-        for c in corpora:
-            for batch in range(1, len(c) + 2):
-                for rule in ER_RULES:
-                    for use_map in (False, True):
-                        for mode in ("total", "per_utt", "dist", "per_utt_dist"):
-                            k += 1
-                            case = dict(prefix=p, suffix=s, utts=_name_utts(c, k), batch=batch, id2token=use_map, mode=mode,
-                                        layout=["parent", "two"][k % 2], shape=[1, 3][(k // 2) % 2], **rule)
-                            if k % 11 == 0:
-                                case["missing"] = ["zz-only", ["ref", "hyp"][k % 2]]
-                            if _er_ok(case):
-                                yield case
+    for c in corpora:
+        for batch in range(1, len(c) + 2):
+            for rule in ER_RULES:
+                for (use_map, mode) in combos:
+                    for (p, s) in ([affixes[k % 4]] if ctx.quick else [affixes[k % 16], affixes[(k * 7 + 5) % 16]]):
+                        k += 1
+                        case = dict(prefix=p, suffix=s, utts=_name_utts(c, k), batch=batch, id2token=use_map, mode=mode,
+                                    layout=["parent", "two"][k % 2], shape=[1, 3][(k // 2) % 2], **rule)
+                        if k % 11 == 0:
+                            case["missing"] = ["zz-only", ["ref", "hyp"][k % 2]]
+                        if _er_ok(case):
+                            yield case
     if ctx.quick:
         return
     rng = random.Random(ctx.seed * 104729 + 5)
@@ -1079,14 +1079,14 @@ def cases_moments(ctx):
     seqs = [list(x) for n in range(1, L + 1) for x in itertools.product([0, 1, 2], repeat=n)]
     affixes = [("", ".pt"), ("p_", ".pt"), ("a", "a"), ("x.y-", "_s.bin"), ("", "")] if quick else _affixes()
     k = 0
-    for (p, s) in affixes:
+    for rot in range(1 if quick else 4):
         # ali: every label sequence over {0,1,2} up to length L, pooled three at a time, all flag combinations
         for i in range(0, len(seqs), 3):
             for bessel in (False, True):
                 for std in (False, True):
                     for excl in (None, [1], [0, 2]):
                         k += 1
-                        yield dict(kind="ali", prefix=p, suffix=s, utts=_name_utts(seqs[i:i + 3], k), bessel=bessel, std=std, exclude=excl,
+                        yield dict(kind="ali", prefix=affixes[(k + rot) % len(affixes)][0], suffix=affixes[(k + rot) % len(affixes)][1], utts=_name_utts(seqs[i:i + 3], k), bessel=bessel, std=std, exclude=excl,
                                    precision=[None, 0, 5][k % 3], to_file=bool(k % 2))
         # ref: segments with valid, zero-length, missing (-1) and inverted boundaries, plus boundary-less utterances
         segs = [[0, 0, 2], [1, 2, 2], [2, 3, 7], [1, -1, -1], [0, 5, 4], [2, 0, 1], [0, -1, 3]]
@@ -1097,7 +1097,7 @@ def cases_moments(ctx):
                     for excl in (None, [1], [0, 2]):
                         k += 1
                         us = [(r,), (refs[(i * 5 + 2) % len(refs)],)] + ([([0, 1, 1],)] if k % 4 == 0 else [])
-                        yield dict(kind="ref", prefix=p, suffix=s, utts=_name_utts(us, k), bessel=bessel, std=std, exclude=excl, precision=[None, 1, 4][k % 3],
+                        yield dict(kind="ref", prefix=affixes[(k + rot) % len(affixes)][0], suffix=affixes[(k + rot) % len(affixes)][1], utts=_name_utts(us, k), bessel=bessel, std=std, exclude=excl, precision=[None, 1, 4][k % 3],
                                    to_file=bool(k % 2), strict=bool(k % 5 == 0))
         # mvn: integer features, >= 2 frames per group
         tabs = [[[0, 1], [2, 5]], [[1, 1], [1, 4], [7, 0]], [[3, -2]], [[0, 0], [0, 9], [4, 4], [2, 1]], [[5, 5], [5, 5]]]
@@ -1112,7 +1112,7 @@ def cases_moments(ctx):
                             frames[g if gid else None] = frames.get(g if gid else None, 0) + len(r)
                         if min(frames.values()) < 2:
                             continue
-                        yield dict(kind="mvn", prefix=p, suffix=s, utts=_name_utts(us, k), bessel=bessel, id2gid=gid)
+                        yield dict(kind="mvn", prefix=affixes[(k + rot) % len(affixes)][0], suffix=affixes[(k + rot) % len(affixes)][1], utts=_name_utts(us, k), bessel=bessel, id2gid=gid)
     if quick:
         return
     rng = random.Random(ctx.seed * 613 + 1)
@@ -1256,7 +1256,7 @@ def _w_build(cmd, tmp, p, s, n):
     if cmd == "subset_torch_spect_data_dir":
         return lambda o, w: [ind, os.path.join(o, "sub"), "--shortest-n", str(max(n - 1, 1)), "--copy"] + aff + w
     if cmd == "chunk_torch_spect_data_dir":
-        return lambda o, w: [ind, os.path.join(o, "chunks"), "--policy=ali", "--quiet"] + aff + w
+        return lambda o, w: [ind, os.path.join(o, "chunks"), "--lobe-size=1", "--quiet"] + aff + w
     raise KeyError(cmd)
 
 
@@ -1294,16 +1294,14 @@ def check_workers(case):
 def cases_workers(ctx):
     if ctx.quick:
         for i, cmd in enumerate(W_CMDS):
-            p, s = [("", ".pt"), ("p_", "_s.bin"), ("a", "a")][i % 3]
-            yield dict(cmd=cmd, prefix=p, suffix=s, n=4, workers=[0, 1, 2], chunk=None)
-        for i, cmd in enumerate(W_CMDS):
-            yield dict(cmd=cmd, prefix="x.y-", suffix="", n=5, workers=[0, 2], chunk=1)
+            p, s = [("", ".pt"), ("p_", "_s.bin"), ("a", "a"), ("x.y-", "")][i % 4]
+            yield dict(cmd=cmd, prefix=p, suffix=s, n=5, workers=[0, 1, 2], chunk=None)
         return
     for i, cmd in enumerate(W_CMDS):
-        for (p, s) in [("", ".pt"), ("p_", "_s.bin"), ("a", "a"), ("x.y-", "")]:
-            for n in (1, 3, 5):
-                for chunk in (None, 1, 2):
-                    yield dict(cmd=cmd, prefix=p, suffix=s, n=n, workers=[0, 1, 2, 3], chunk=chunk)
+        for j, n in enumerate((1, 5)):
+            for chunk in (None, 1, 2):
+                for (p, s) in [[("", ".pt"), ("p_", "_s.bin"), ("a", "a"), ("x.y-", "")][(i + j + q) % 4] for q in (0, 1)]:
+                    yield dict(cmd=cmd, prefix=p, suffix=s, n=n, workers=[0, 1, 3], chunk=chunk)
 
 
 # ---------------------------------------------------------------------------------------------------
@@ -1315,8 +1313,37 @@ CHECKERS = {
     "C17.cli.moments": check_moments,
     "C17.cli.workers": check_workers,
 }
-FINDINGS = []
-KNOWN_MATCH = {}
+
+
+def _er_ref_lens(case):
+    rep = {a: b for a, b in case.get("replace") or []}
+    ign = set(case.get("ignore") or [])
+    return [len([x for x in r if rep.get(x, x) not in ign]) for _, r, _ in case["utts"]]
+
+
+FINDINGS = [
+    {"id": "KF-C17-1", "property": "C17", "clause": "C17.cli.roundtrip",
+     "what": "torch-token-data-dir-to-textgrids ignores --precision (and its own tier-type decision): it calls write_textgrid with a path, which re-enters without point_tier/precision "
+             "(same root as KF-C11-1); with a raw-sample frame shift (< 1 ms) times are rounded to 1 ms = many frames and interval tiers come back as point tiers",
+     "class": "TextGrid round trip with --precision other than 3 and --frame-shift-ms below 1 (three decimals of a second cannot resolve one frame)",
+     "witness": {"kind": "tg", "prefix": "", "suffix": ".pt", "shift": 0.0625, "precision": 6, "fmt": "short", "utts": [["a", "IntervalTier", [["a", 0, 0.125]], 0.125]]}},
+    {"id": "KF-C17-2", "property": "C17", "clause": "C17.cli.roundtrip",
+     "what": "textgrids-to-torch-token-data-dir loses the last entry of every tier but the last one of a multi-tier TextGrid in Praat's short text form "
+             "(_textgrid.py splits tiers at '\"<label>\"\\n\"<next tier class>\"', taking the previous tier's last label for a tier header)",
+     "class": "short-text-form TextGrid with more than one tier, extracted tier is not the last tier of the file",
+     "witness": {"kind": "tg", "prefix": "", "suffix": ".pt", "shift": None, "fmt": "short", "fill": False, "tg_suffix": None, "tier_sel": ["idx", 0], "length": "infer",
+                 "utts": [["a", "IntervalTier", [["a", 0, 20.0]], 20.0]]}},
+    {"id": "KF-C17-3", "property": "C17", "clause": "C17.cli.error_rate",
+     "what": "compute-torch-token-data-dir-error-rates raises ZeroDivisionError when printing the total rate if any single reference is empty (after --replace/--ignore), "
+             "because the per-utterance quotient is computed even when it is not printed",
+     "class": "neither --per-utt nor --distances, some reference transcript has length 0 after replace-then-ignore, total reference length > 0",
+     "witness": {"prefix": "", "suffix": ".pt", "utts": [["a", [], [0]], ["u1", [0], [0]]], "batch": 1, "id2token": False, "mode": "total", "layout": "parent", "shape": 1}},
+]
+KNOWN_MATCH = {
+    "KF-C17-1": lambda c, msg: c.get("kind") == "tg" and c.get("precision") not in (None, 3) and (c.get("shift") or 10.0) < 1.0 and ("of class TextTier, expected" in msg or "came back at" in msg),
+    "KF-C17-2": lambda c, msg: c.get("kind") == "tg" and c.get("fmt", "short") == "short" and c.get("tier_sel") == ["idx", 0] and ": shape (" in msg,
+    "KF-C17-3": lambda c, msg: "batch" in c and c.get("mode", "total") == "total" and 0 in _er_ref_lens(c) and sum(_er_ref_lens(c)) > 0 and "ZeroDivisionError" in msg,
+}
 
 M = "command_line."
 
@@ -1344,9 +1371,9 @@ def run_bounded(ctx):
                                                "torch_token_data_dir_to_torch_ali_data_dir", "_DirectoryDataset.__init__", "_save_transcripts_to_dir_do_work")])
     if want("C17.cli.error_rate"):
         ctx.bounded("C17.cli.error_rate", check_error_rate, cases_error_rate(ctx),
-                    bound="%d affix pairs, %s corpora of 1..%d utterances over ids {0..3}, every --batch-size 1..n+1, 6 replace/ignore rule sets, with/without --id2token, total/--per-utt/--distances, "
+                    bound="%d affix pairs (rotated over the enumeration), %d corpora of 1..%d utterances over ids {0..3}, every --batch-size 1..n+1, 6 replace/ignore rule sets, with/without --id2token, total/--per-utt/--distances, "
                           "ref+hyp under one parent or as two dirs, (R,) and (R,3) tensors, a one-sided utterance with --warn-missing; unit costs; divisor non-zero%s"
-                          % ((4, 9, 4, "") if q else (16, "60+", 9, "; plus 6000 seeded random corpora (<=7 utterances, lengths <=7)")),
+                          % ((4, 7, 4, "") if q else (16, 31, 9, "; plus 6000 seeded random corpora (<=7 utterances, lengths <=7)")),
                     text="printed figure = sum of Levenshtein distances / sum of reference lengths after replace-then-ignore on both sides (or the per-utterance figures), independent of the batch size",
                     nontrivial=lambda c: c["batch"] < len(c["utts"]) or bool(c.get("replace") or c.get("ignore")), chunk=32,
                     functions=[M + "compute_torch_token_data_dir_error_rates", M + "_load_transcripts_from_data_dir"])
@@ -1358,15 +1385,15 @@ def run_bounded(ctx):
                     nontrivial=lambda c: len(c["feats"]) > 1, chunk=32, functions=[M + "subset_torch_spect_data_dir", M + "_copy_spect_data_dir_do_work"])
     if want("C17.cli.moments"):
         ctx.bounded("C17.cli.moments", check_moments, cases_moments(ctx),
-                    bound="%d affix pairs; ali: all label sequences over {0,1,2} up to length %d pooled in threes; ref: all 1..3-subsets of 7 segments (valid, empty, missing, inverted) + boundary-less files; "
+                    bound="%d affix pairs (rotated over the enumeration); ali: all label sequences over {0,1,2} up to length %d pooled in threes; ref: all 1..3-subsets of 7 segments (valid, empty, missing, inverted) + boundary-less files; "
                           "--bessel x --std x --exclude-ids x --precision, stdout or file, --strict; mvn: 25 integer tables pooled, --bessel, --id2gid%s" % ((5, 4, "") if q else (16, 5, "; plus 4000 seeded random directories")),
                     text="printed mean (variance|std) and stored mean/std equal the exact rational recount over all selected files",
                     chunk=32, functions=[M + "print_torch_ali_data_dir_length_moments", M + "print_torch_ref_data_dir_length_moments", M + "_do_mv_printing",
                                          M + "compute_mvn_stats_for_torch_feat_data_dir"])
     if want("C17.cli.workers"):
         ctx.bounded("C17.cli.workers", check_workers, cases_workers(ctx),
-                    bound=("the 12 commands that take --num-workers, 4-5 utterances, num-workers {0,1,2} (default chunking) and {0,2} with --mp-chunk-size 1" if q else
-                           "the 12 commands that take --num-workers, 1/3/5 utterances, 4 affix pairs, num-workers {0,1,2,3}, --mp-chunk-size {default,1,2}"),
+                    bound=("the 12 commands that take --num-workers, 5 utterances, num-workers {0,1,2}, default chunking, one affix pair each" if q else
+                           "the 12 commands that take --num-workers, 1 and 5 utterances, 2 affix pairs each, num-workers {0,1,3}, --mp-chunk-size {default,1,2}"),
                     text="identical output files (tensor-wise) and printed figures for every worker count", chunk=1,
                     functions=[M + "_multiprocessor_pattern_generator", M + "_worker_func", M + "_load_transcripts_from_data_dir", M + "chunk_torch_spect_data_dir"])
     ctx.replay_known_witnesses()
